@@ -18,8 +18,12 @@ in every crash image).  This file proves the other half on the rawdb model and j
   `[start, start+len)` of region `j` are exactly the ones it had at the sync — and its slot in the model still says the same
   name, start, length and reservation.
 
-Not proved here (crash engine): that the metadata FILE after the crash decodes to a disjoint layout (the ordering argument
-`C05_order` + slot atomicity `C05_slot_atomic`), and the "never a mixture" sentence for regions that WERE modified.
+* `C05_history_slot`: the same for the METADATA file — no later request writes slot `j` or cuts the file below it, so in
+  every crash image the slot's 4096 bytes are the synced ones: the region comes back with its name, start, length and
+  reservation.
+
+Not proved here (crash engine): that the WHOLE metadata file after the crash decodes to a disjoint layout (the ordering argument
+`C05_order` for the slots that WERE rewritten), and the "never a mixture" sentence for regions that were modified.
 -/
 namespace AnyDB.C05r
 open AnyDB Conc Db C02r C01r Mem Durable
@@ -27,13 +31,13 @@ open AnyDB Conc Db C02r C01r Mem Durable
 /-- every request of the history leaves region `j` alone: metadata kept, no store into its data pages -/
 theorem keep_run (s : Db) (r : Ref) (ops : List Op) (hrel : Rel s r) (hinv : RInv s) (hi : InF s) (ha : Al s)
     (hr : NoReopen ops) (hf : FineRun s ops) (j : Nat) (slj : Slot) (hsj : s.slot? j = some slj)
-    (hunt : ∀ op ∈ ops, ¬Touches slj.md.id op) :
+    (hunt : ∀ op ∈ ops, ¬Touches slj.md.id op) (hjr : j < s.rfile.length) :
     Keep j slj.md.start (slj.md.start + ceilPage slj.md.len) s (run s ops) := by
   induction ops generalizing s r slj with
   | nil => exact Keep.refl _ _ _ _
   | cons op t ih =>
     have hno := hr op (List.mem_cons_self ..)
-    have k1 := keep_step s op hinv hi ha j slj hsj (hunt op (List.mem_cons_self ..))
+    have k1 := keep_step s op hinv hi ha j slj hsj (hunt op (List.mem_cons_self ..)) hjr
     have hn := normal_of_fine s op hinv hf.1
     obtain ⟨r1, r2⟩ := rel_step s r op hrel hinv hno hn
     have hi' := inf_step s op hinv.lay hi hno
@@ -43,7 +47,7 @@ theorem keep_run (s : Db) (r : Ref) (ops : List Op) (hrel : Rel s r) (hinv : RIn
       · exact h
     obtain ⟨slj', hsj', hmd⟩ := md_of_keep k1 slj hsj
     have k2 := ih (step s op).1 _ r1 r2 hi' ha' (fun o ho => hr o (List.mem_cons_of_mem _ ho)) hf.2 slj' hsj'
-      (by rw [hmd]; exact fun o ho => hunt o (List.mem_cons_of_mem _ ho))
+      (by rw [hmd]; exact fun o ho => hunt o (List.mem_cons_of_mem _ ho)) (Nat.lt_of_lt_of_le hjr k1.2.2.2)
     rw [hmd] at k2
     exact k1.trans k2
 
@@ -68,7 +72,7 @@ theorem mem_pagesOf_bounds (off len p : Nat) (h : p ∈ pagesOf off len) :
     omega
 
 /-- byte-level avoidance of the page-aligned window gives the page-level avoidance the durability theorem asks for -/
-theorem avoids_of_av (start len : Nat) (hs : start % Gen.PAGE_SIZE = 0) (e : Event) (h : Av start (start + ceilPage len) e) :
+theorem avoids_of_av (j start len : Nat) (hs : start % Gen.PAGE_SIZE = 0) (e : Event) (h : Av j start (start + ceilPage len) e) :
     ∀ e' ∈ dataEv e, e'.avoids start (start + len) := by
   have hB : (start + len + Gen.PAGE_SIZE - 1) / Gen.PAGE_SIZE = (start + ceilPage len) / Gen.PAGE_SIZE := by
     unfold ceilPage; simp only [Gen.PAGE_SIZE] at *; omega
@@ -130,13 +134,13 @@ since the last sync hold anything).  Then region `j`'s slot still carries its na
 every byte of its data is in `img` exactly as it was at the sync. -/
 theorem C05_history_data (s : Db) (r : Ref) (ops : List Op) (hrel : Rel s r) (hinv : RInv s) (hi : InF s) (ha : Al s)
     (hr : NoReopen ops) (hf : FineRun s ops) (j : Nat) (slj : Slot) (hsj : s.slot? j = some slj)
-    (hunt : ∀ op ∈ ops, ¬Touches slj.md.id op)
+    (hunt : ∀ op ∈ ops, ¬Touches slj.md.id op) (hjr : j < s.rfile.length)
     (f : FileD) (hfl : slj.md.start + slj.md.len ≤ f.volatile.length) (hfv : ∀ i, i < f.volatile.length → f.volatile[i]? = s.mem.get? i)
     (k : Nat) (img : List UInt8)
     (hc : CrashImage ((f.apply .sync).run ((((run s ops).log.drop s.log.length).take k).flatMap dataEv)) img) :
     ((run s ops).slot? j).map (·.md) = some slj.md ∧
     ∀ i, i < slj.md.len → img[slj.md.start + i]? = s.mem.get? (slj.md.start + i) := by
-  obtain ⟨k1, ⟨evs, hlog, hav⟩, _⟩ := keep_run s r ops hrel hinv hi ha hr hf j slj hsj hunt
+  obtain ⟨k1, ⟨evs, hlog, hav⟩, _⟩ := keep_run s r ops hrel hinv hi ha hr hf j slj hsj hunt hjr
   refine ⟨by rw [k1, hsj]; rfl, ?_⟩
   have hdrop : (run s ops).log.drop s.log.length = evs := by rw [hlog]; simp
   rw [hdrop] at hc
@@ -144,12 +148,68 @@ theorem C05_history_data (s : Db) (r : Ref) (ops : List Op) (hrel : Rel s r) (hi
   have havoid : ∀ e' ∈ (evs.take k).flatMap dataEv, e'.avoids slj.md.start (slj.md.start + slj.md.len) := by
     intro e' he'
     obtain ⟨e, he, hee⟩ := List.mem_flatMap.mp he'
-    exact avoids_of_av slj.md.start slj.md.len hal e (hav e (List.mem_of_mem_take he)) e' hee
+    exact avoids_of_av j slj.md.start slj.md.len hal e (hav e (List.mem_of_mem_take he)) e' hee
   intro i hi'
   have := C05.C05_untouched f _ slj.md.start (slj.md.start + slj.md.len) img hfl havoid hc (slj.md.start + i) (by omega) (by omega)
   rw [this]
   exact hfv _ (by omega)
 
+
+/-! ## the metadata file: the slot of a region nobody names is never written again -/
+
+/-- the events of the metadata file, as the durability model sees them; `enc` is the 4096-byte image of a slot -/
+def regEv (enc : Option Meta → List UInt8) : Event → List Durable.Ev
+  | .metaWrite idx m => [.write (idx * Gen.SIZE_OF_REGION_METADATA) (enc m)]
+  | .setLen .regions n => [.setLen n]
+  | .sync .regions => [.sync]
+  | _ => []
+
+theorem avoids_slot (j a b : Nat) (enc : Option Meta → List UInt8) (henc : ∀ m, (enc m).length = Gen.SIZE_OF_REGION_METADATA)
+    (e : Event) (h : Av j a b e) :
+    ∀ e' ∈ regEv enc e, e'.avoids (j * Gen.SIZE_OF_REGION_METADATA) ((j + 1) * Gen.SIZE_OF_REGION_METADATA) := by
+  cases e with
+  | metaWrite idx m =>
+    intro e' he'
+    simp only [regEv, List.mem_singleton] at he'
+    subst he'
+    intro p hp
+    obtain ⟨_, p2, p3⟩ := mem_pagesOf_bounds _ _ p hp
+    rw [henc] at p3
+    simp only [Av] at h
+    simp only [Gen.SIZE_OF_REGION_METADATA, Gen.PAGE_SIZE] at *
+    omega
+  | setLen f n =>
+    cases f with
+    | regions => intro e' he'; simp only [regEv, List.mem_singleton] at he'; subst he'; exact h
+    | data => intro e' he'; simp [regEv] at he'
+  | sync f =>
+    cases f with
+    | regions => intro e' he'; simp only [regEv, List.mem_singleton] at he'; subst he'; trivial
+    | data => intro e' he'; simp [regEv] at he'
+  | dataWrite o d => intro e' he'; simp [regEv] at he'
+  | punch o n => intro e' he'; simp [regEv] at he'
+  | flushAsync f a b => intro e' he'; simp [regEv] at he'
+  | flushAsyncAll f => intro e' he'; simp [regEv] at he'
+
+/-- **C05, metadata half**: with the hypotheses of `C05_history_data`, take the METADATA file right after a sync; at every
+crash point of the continuation and in every crash image the 4096 bytes of slot `j` are exactly the synced ones — so the
+region is recovered with the name, start, length and reservation it had (C17: the slot image decodes to what was encoded) -/
+theorem C05_history_slot (s : Db) (r : Ref) (ops : List Op) (hrel : Rel s r) (hinv : RInv s) (hi : InF s) (ha : Al s)
+    (hr : NoReopen ops) (hf : FineRun s ops) (j : Nat) (slj : Slot) (hsj : s.slot? j = some slj)
+    (hunt : ∀ op ∈ ops, ¬Touches slj.md.id op) (hjr : j < s.rfile.length)
+    (enc : Option Meta → List UInt8) (henc : ∀ m, (enc m).length = Gen.SIZE_OF_REGION_METADATA)
+    (g : FileD) (hgl : (j + 1) * Gen.SIZE_OF_REGION_METADATA ≤ g.volatile.length)
+    (k : Nat) (img : List UInt8)
+    (hc : CrashImage ((g.apply .sync).run ((((run s ops).log.drop s.log.length).take k).flatMap (regEv enc))) img) :
+    ∀ i, j * Gen.SIZE_OF_REGION_METADATA ≤ i → i < (j + 1) * Gen.SIZE_OF_REGION_METADATA → img[i]? = g.volatile[i]? := by
+  obtain ⟨_, ⟨evs, hlog, hav⟩, _⟩ := keep_run s r ops hrel hinv hi ha hr hf j slj hsj hunt hjr
+  have hdrop : (run s ops).log.drop s.log.length = evs := by rw [hlog]; simp
+  rw [hdrop] at hc
+  have havoid : ∀ e' ∈ (evs.take k).flatMap (regEv enc), e'.avoids (j * Gen.SIZE_OF_REGION_METADATA) ((j + 1) * Gen.SIZE_OF_REGION_METADATA) := by
+    intro e' he'
+    obtain ⟨e, he, hee⟩ := List.mem_flatMap.mp he'
+    exact avoids_slot j _ _ enc henc e (hav e (List.mem_of_mem_take he)) e' hee
+  exact C05.C05_untouched g _ _ _ img hgl havoid hc
 
 theorem okRun_append (r : Ref) (a b : List Op) (h : OKRun r (a ++ b)) : OKRun r a ∧ OKRun (a.foldl refStep r) b := by
   induction a generalizing r with
@@ -163,6 +223,7 @@ theorem okRun_append (r : Ref) (a b : List Op) (h : OKRun r (a ++ b)) : OKRun r 
 `ops₂` what happens afterwards; both well-formed (`OKRun`), without reopen, and `ops₂` never names the region -/
 theorem C05_history (ops₁ ops₂ : List Op) (hr1 : NoReopen ops₁) (hr2 : NoReopen ops₂) (hok : OKRun [] (ops₁ ++ ops₂))
     (j : Nat) (slj : Slot) (hsj : (run Db.init ops₁).slot? j = some slj) (hunt : ∀ op ∈ ops₂, ¬Touches slj.md.id op)
+    (hjr : j < (run Db.init ops₁).rfile.length)
     (f : FileD) (hfl : slj.md.start + slj.md.len ≤ f.volatile.length)
     (hfv : ∀ i, i < f.volatile.length → f.volatile[i]? = (run Db.init ops₁).mem.get? i)
     (k : Nat) (img : List UInt8)
@@ -177,7 +238,7 @@ theorem C05_history (ops₁ ops₂ : List Op) (hr1 : NoReopen ops₁) (hr2 : NoR
   have hi := inf_run Db.init ops₁ linv_init inf_init hr1 hnp
   have ha := al_run Db.init ops₁ linv_init al_init hr1 hnp
   have hf2 := fineRun_of_ok (run Db.init ops₁) _ ops₂ hrel hinv hi hr2 ok2
-  exact C05_history_data _ _ ops₂ hrel hinv hi ha hr2 hf2 j slj hsj hunt f hfl hfv k img hc
+  exact C05_history_data _ _ ops₂ hrel hinv hi ha hr2 hf2 j slj hsj hunt hjr f hfl hfv k img hc
 
 end AnyDB.C05r
 
